@@ -9,9 +9,12 @@
 package main
 
 import (
+	"encoding/json"
 	"fmt"
 	"math"
 	"os"
+	"os/exec"
+	"path/filepath"
 	"sort"
 	"strings"
 	"time"
@@ -19,6 +22,7 @@ import (
 	"github.com/martian-lang/martian/martian/core"
 	"github.com/martian-lang/martian/martian/vshim"
 
+	"verif/lib/c12sc"
 	"verif/lib/ev"
 	"verif/lib/vexp"
 )
@@ -78,138 +82,6 @@ func sig(v string) string {
 		words = words[:9]
 	}
 	return "C12:" + strings.Join(words, "_")
-}
-
-// ---------------------------------------------------------------- scenarios
-
-func multisets(vals []int64, k int) [][]int64 {
-	var out [][]int64
-	var rec func(start int, cur []int64)
-	rec = func(start int, cur []int64) {
-		if len(cur) == k {
-			out = append(out, append([]int64{}, cur...))
-			return
-		}
-		for i := start; i < len(vals); i++ {
-			rec(i, append(cur, vals[i]))
-		}
-	}
-	rec(0, nil)
-	return out
-}
-
-func semScenarios(thorough bool) []Case {
-	const max = 4
-	amounts := []int64{1, 2, 3, 4, 5}
-	updates := []core.SemOp{{Kind: "actual", N: 0}, {Kind: "actual", N: 2}, {Kind: "actual", N: 4},
-		{Kind: "size", N: 1}, {Kind: "size", N: 4}, {Kind: "free", N: 0, M: 0}, {Kind: "free", N: 2, M: 1}, {Kind: "free", N: 1, M: 4}}
-	var out []Case
-	add := func(threads ...[]core.SemOp) {
-		sc := core.SemScenario{Max: max, Threads: threads}
-		out = append(out, Case{Kind: "sem", Sem: &sc})
-	}
-	acq := func(n int64) []core.SemOp { return []core.SemOp{{Kind: "acq", N: n}} }
-	for _, ms := range multisets(amounts, 2) {
-		add(acq(ms[0]), acq(ms[1]))
-		add(acq(ms[0]), acq(ms[1]), []core.SemOp{{Kind: "obs"}})
-		for _, u := range updates {
-			add(acq(ms[0]), acq(ms[1]), []core.SemOp{u})
-			for _, u2 := range updates {
-				add(acq(ms[0]), acq(ms[1]), []core.SemOp{u, u2})
-			}
-		}
-		// one request that is never released
-		add([]core.SemOp{{Kind: "hold", N: ms[0]}}, acq(ms[1]), []core.SemOp{{Kind: "size", N: 4}})
-	}
-	for _, ms := range multisets(amounts, 3) {
-		add(acq(ms[0]), acq(ms[1]), acq(ms[2]))
-		for _, u := range updates {
-			add(acq(ms[0]), acq(ms[1]), acq(ms[2]), []core.SemOp{u})
-		}
-	}
-	for _, a := range amounts {
-		for _, b := range amounts {
-			for _, c := range amounts {
-				add([]core.SemOp{{Kind: "acq", N: a}, {Kind: "acq", N: b}}, acq(c))
-			}
-		}
-	}
-	if thorough {
-		for _, ms := range multisets(amounts[:4], 4) {
-			add(acq(ms[0]), acq(ms[1]), acq(ms[2]), acq(ms[3]))
-		}
-		for _, ms := range multisets(amounts, 3) {
-			for _, u := range updates {
-				for _, u2 := range updates {
-					add(acq(ms[0]), acq(ms[1]), acq(ms[2]), []core.SemOp{u, u2})
-				}
-			}
-		}
-	}
-	return out
-}
-
-func jobsScenarios(thorough bool) []Case {
-	var out []Case
-	kinds := []string{"job", "lost", "try"}
-	fourth := [][]core.JobsOp{nil, {{Kind: "find"}}, {{Kind: "find"}, {Kind: "find"}}, {{Kind: "cancel", J: 1}}, {{Kind: "cancel", J: 1}, {Kind: "find"}}}
-	for _, limit := range []int{1, 2} {
-		for _, k0 := range kinds {
-			for _, k1 := range kinds {
-				for _, j1 := range []int{1, 0} {
-					for _, k2 := range kinds {
-						for _, j2 := range []int{2, 0} {
-							for _, f := range fourth {
-								threads := [][]core.JobsOp{{{Kind: k0, J: 0}}, {{Kind: k1, J: j1}}, {{Kind: k2, J: j2}}}
-								if f != nil {
-									threads = append(threads, f)
-								}
-								sc := core.JobsScenario{Limit: limit, Jobs: 3, Threads: threads}
-								out = append(out, Case{Kind: "jobs", Jobs: &sc})
-							}
-						}
-					}
-				}
-			}
-		}
-	}
-	if thorough {
-		// four submitters
-		for _, limit := range []int{1, 2, 3} {
-			for _, k := range kinds {
-				threads := [][]core.JobsOp{{{Kind: "job", J: 0}}, {{Kind: k, J: 1}}, {{Kind: "job", J: 2}}, {{Kind: k, J: 3}}, {{Kind: "find"}}}
-				sc := core.JobsScenario{Limit: limit, Jobs: 4, Threads: threads}
-				out = append(out, Case{Kind: "jobs", Jobs: &sc})
-			}
-		}
-	}
-	return out
-}
-
-var localRequests = []core.JobResources{
-	{Threads: 0, MemGB: 0}, {Threads: 1, MemGB: 1}, {Threads: 2, MemGB: 2}, {Threads: 3, MemGB: 1}, {Threads: 1, MemGB: 3},
-	{Threads: -1, MemGB: 1}, {Threads: 1, MemGB: -1}, {Threads: 0.5, MemGB: 0.5}, {Threads: 1.5, MemGB: 1},
-}
-
-func localScenarios(thorough bool) []Case {
-	var out []Case
-	n := len(localRequests)
-	for _, vmem := range []int{0, 3} {
-		base := core.LocalScenario{Cores: 2, MemGB: 2, VmemGB: vmem, Default: [2]int{1, 1}}
-		for a := 0; a < n; a++ {
-			for b := a; b < n; b++ {
-				sc := base
-				sc.Jobs = []core.JobResources{localRequests[a], localRequests[b]}
-				out = append(out, Case{Kind: "local", Local: &sc})
-				for c := b; c < n; c++ {
-					sc3 := base
-					sc3.Jobs = []core.JobResources{localRequests[a], localRequests[b], localRequests[c]}
-					out = append(out, Case{Kind: "local", Local: &sc3})
-				}
-			}
-		}
-	}
-	return out
 }
 
 // reqGrid checks GetSystemReqs over the whole request grid (no concurrency).
@@ -343,6 +215,51 @@ func explore(r *ev.Run, c Case, bound int, maxExecs int, sampleEvery int) {
 	}
 }
 
+// racePass runs the free-running -race companion binary (same scenario
+// bodies, unmodified sync) and records what the detector reported.  A report
+// is evidence that the scheduling points are too coarse, not a violation of
+// the property.
+func racePass(r *ev.Run) {
+	bin := filepath.Join(ev.Root(), ".build", "bin", "c12race")
+	if _, err := os.Stat(bin); err != nil {
+		r.Set("race_pass", "not built")
+		return
+	}
+	dir, err := os.MkdirTemp("/dev/shm", "c12race-")
+	if err != nil {
+		return
+	}
+	defer os.RemoveAll(dir)
+	budget := "6"
+	if r.Thorough() {
+		budget = "90"
+	}
+	cmd := exec.Command(bin)
+	cmd.Env = append(os.Environ(), "GORACE=log_path="+filepath.Join(dir, "race")+" exitcode=0 halt_on_error=0", "C12RACE_BUDGET_S="+budget)
+	out, _ := cmd.CombinedOutput()
+	summary := map[string]int{}
+	for _, l := range strings.Split(string(out), "\n") {
+		if strings.HasPrefix(l, "C12RACE ") {
+			json.Unmarshal([]byte(strings.TrimPrefix(l, "C12RACE ")), &summary)
+		}
+	}
+	reports := 0
+	first := ""
+	logs, _ := filepath.Glob(filepath.Join(dir, "race*"))
+	for _, f := range logs {
+		b, _ := os.ReadFile(f)
+		reports += strings.Count(string(b), "WARNING: DATA RACE")
+		if first == "" && len(b) > 0 {
+			first = ev.Short(string(b), 1500)
+		}
+	}
+	r.Set("race_pass", map[string]interface{}{"free_running_runs": summary["runs"], "scenario_rounds": summary["scenario_rounds"],
+		"threads_left_blocked": summary["left_blocked"], "data_race_reports": reports, "first_report": first})
+	if reports > 0 {
+		fmt.Printf("  note: the free-running -race pass reported %d data race(s); see evidence race_pass.first_report\n", reports)
+	}
+}
+
 func main() {
 	r := ev.New("C12", "model_checking")
 	r.SetBudget(100*time.Second, 40*time.Minute)
@@ -378,9 +295,18 @@ func main() {
 		bound = 3
 	}
 	var fam []Case
-	fam = append(fam, semScenarios(r.Thorough())...)
-	fam = append(fam, jobsScenarios(r.Thorough())...)
-	fam = append(fam, localScenarios(r.Thorough())...)
+	for _, sc := range c12sc.Sem(r.Thorough()) {
+		sc := sc
+		fam = append(fam, Case{Kind: "sem", Sem: &sc})
+	}
+	for _, sc := range c12sc.Jobs(r.Thorough()) {
+		sc := sc
+		fam = append(fam, Case{Kind: "jobs", Jobs: &sc})
+	}
+	for _, sc := range c12sc.Local(r.Thorough()) {
+		sc := sc
+		fam = append(fam, Case{Kind: "local", Local: &sc})
+	}
 	if !ev.IsWorker() {
 		reqGrid(r)
 		nSem, nJobs, nLocal := 0, 0, 0
@@ -401,11 +327,12 @@ func main() {
 			"(d) GetSystemReqs on the full grid of 3x2x2x3 limit settings x 4 availabilities x 16x13x7 requests: 0 < threads <= cores, 0 < mem <= limit, vmem <= limit. "+
 			"A violating schedule is re-run and must reproduce before it is reported. distinct = scenarios; outcomes = distinct final states per scenario kind",
 			bound, nSem, nJobs, nLocal)
+		racePass(r)
 		r.Set("preemption_bound", bound)
 		r.Set("scenarios", len(fam))
 		r.RunWorkers(0)
 		r.Assume("sync.Cond.Signal wakes the longest-waiting goroutine (what the Go runtime's notifyList does); a woken waiter still competes for the mutex with every other thread")
-		r.Assume("all shared state of the two semaphores is accessed under their mutex (a separate free-running -race pass of the same harness bodies is the thorough tier's job); UpdateSize is only called with sizes up to the hard limit, as LocalJobManager does")
+		r.Assume("all shared state of the two semaphores is accessed under their mutex: checked by the free-running -race pass of the same scenario bodies on the unmodified files (evidence key race_pass; 6 s in quick, 90 s in thorough); UpdateSize is only called with sizes up to the hard limit, as LocalJobManager does")
 		r.Finish()
 	}
 	order := r.Rotate(len(fam))
